@@ -294,3 +294,43 @@ PROPS["C10"] = dict(mc=_pwm_mc(), record=True, trace="Trace_C10", shards=12,
                "Python reverse_complement is covered by C17. Trusted: TLC, Json module.",
     rule="impl->spec: events rc (4 per width), rc_commute, rc_score; distinct_nontrivial = distinct (matrix, sequence).",
     assumptions=["DNA only (the only complementable alphabet)"])
+
+
+RD_INV = ["NoPanic", "ExactRecord", "Complete", "StartAtMark"]
+def _rd_mc():
+    return [
+        dict(name="MC_Reader_jaspar_buffer", module="MC_Reader", invariants=RD_INV, actions=["New", "Next1"],
+             constants=dict(Underflow=False), quick=dict(MaxRec=3, MaxBody=3, MaxSlack=3), thorough=dict(MaxRec=5, MaxBody=4, MaxSlack=6)),
+        dict(name="MC_Reader_neg_underflow", module="MC_Reader", invariants=["NoPanic"], expect_violation="NoPanic",
+             constants=dict(Underflow=True, MaxRec=2, MaxBody=2, MaxSlack=1)),
+    ]
+PROPS["C14"] = dict(mc=_rd_mc(), record=True, trace="Trace_C14", shards=12,
+    level_text="A-layer: a reader is a queue of the abstract motifs the file was rendered from; every request returns exactly "
+               "the head (identifier / accession / name / description as written, every entry in the row of its position "
+               "and the column of its symbol, other columns zero), then end of input; the chunk schedule is not part of the "
+               "abstract state. I-layer: the JASPAR buffer / start / compaction bookkeeping is model-checked to return each "
+               "record whole and in order for every file shape and every capacity the allocator may choose. Recorded reads "
+               "of rendered files (4 formats, DNA and protein, 1..120 (quick) / 400 (thorough) records, widths 1..40, counts "
+               "up to 2^32-1, optional metadata, permuted symbol columns, optional VV block) through a BufRead delivering "
+               "1-byte, {2,3,7}, 7, 64, 4096, random or whole-file chunks are validated by TLC; bundled test files must read "
+               "identically under three schedules.",
+    level_note="Well-formed means the canonical syntax of the four renderers in harness/lmconform/src/readers.rs (the syntax "
+               "shown in the crate documentation and test files); they are trusted. TRANSFAC counts are kept below 10^5 "
+               "(stored as f32 by the library). MC covers the JASPAR-style buffer only; the line-based readers are covered "
+               "by trace validation. Trusted: TLC, Json module.",
+    rule="impl->spec: one history per (format, alphabet, motif list, schedule): rd_new then rd_next until none; "
+         "distinct_nontrivial = distinct (format, alphabet, file bytes, schedule).",
+    assumptions=["std::io::BufRead::read_until / read_line honour their contract for any fill_buf chunking"])
+PROPS["C15"] = dict(mc=_rd_mc(), record=True, trace="Trace_C15", shards=12,
+    level_text="Totality: construction and every request end in record | error | none; panic and hang are not actions of the "
+               "reader machine, and the number of records is bounded by the input length. The JASPAR buffer model is "
+               "checked panic-free for all file shapes (with the original `n - 1` in Reader::new as a negative control). "
+               "Recorded outcome sequences of the four real readers on empty / tiny inputs, every prefix and every "
+               "single-byte deletion of a valid file, dictionary substitutions / insertions, dropped lines and tokens "
+               "(ragged matrices, headers without matrix), missing final newline, random bytes and invalid UTF-8, under seven "
+               "chunk schedules, are validated by TLC.",
+    level_note="'All byte strings' is sampled (structured around the grammar: ~12 000 inputs quick, ~50 000 thorough); "
+               "exhaustive only in the token model. Python `load` is covered by C17. Trusted: TLC, Json module.",
+    rule="impl->spec: one event per input {format, mutation, schedule, outcomes}; distinct_nontrivial = distinct "
+         "(format, alphabet, bytes).",
+    assumptions=["a reader is driven until the first error / none, at most len+2 requests (more = hang)"])
